@@ -197,17 +197,7 @@ def schedules_vs_impl(ck):
         alone = [[compiled.call_logic_net(libs[l], W, x, progs[l]["sizes"][1]) for l, x in calls] for calls in threads]
         plan.append((W, (ka, kb), threads, scheds, alone))
     if declared not in ("ThreadLocal", "Automatic") or any(st == "SharedStatic" for p in progs for st in p["storages"]):
-        # search for a failing input on the real code: networks that stay in logic_net long enough for calls to overlap
-        sjobs = [{"kind_of_job": "threads", "models": [0, 1], "W": 64, "threads": t, "mix": mix, "rounds": 150, "kind": "dense-big"}
-                 for t in (8, 16) for mix in (False, True)]
-        for job, res in zip(sjobs, subproc.run_jobs(ck.scratch, sjobs, workers=2, timeout=900)):
-            case = {"threads": job["threads"], "mix_handles": job["mix"], "W": 64, "rounds": job["rounds"], "model": "dense 32 -> 6000 -> 6000 -> 64"}
-            ck.case(case, nontrivial=True, kind="threads")
-            if not res["done"] or not res["steps"]:
-                ck.disagree("concurrent calls killed the process", dict(case, stderr=res["stderr"][-200:]), signature={"what": "threads-crash"})
-            elif res["steps"][0]["wrong"]:
-                ck.disagree("concurrent calls return results that differ from the sequential ones", dict(case, wrong=res["steps"][0]["wrong"], first=res["steps"][0]["first"]),
-                            signature={"what": "threads-wrong", "same_handle": not job["mix"]})
+        ck._shared_storage = True
     rc, out, err = ck.coq_eval("c16sched", txt, timeout=1200)
     if rc != 0:
         ck.broke("correspondence", "kernel evaluation of Model/Threads.run_schedule", err[-600:])
@@ -231,6 +221,22 @@ def schedules_vs_impl(ck):
                 else:
                     ck.disagree("with the emitted storage class the interleaving model has a schedule whose results differ from the calls made alone",
                                 dict(case, model_results=res, alone=alone), signature={"what": "static", "kind": "schedule"})
+
+
+def thread_stress_search(ck):
+    """Search for a failing input on the real code: networks that stay in logic_net / apply_logic_net long enough for concurrent calls to
+    overlap.  Run when the storage is not private or when a translator / proof of this run broke (e.g. the wrapper no longer has the
+    modelled per-call storage)."""
+    sjobs = [{"kind_of_job": "threads", "models": [0, 1], "W": 64, "threads": t, "mix": mix, "rounds": 150, "kind": "dense-big"}
+             for t in (8, 16) for mix in (False, True)]
+    for job, res in zip(sjobs, subproc.run_jobs(ck.scratch, sjobs, workers=2, timeout=900)):
+        case = {"threads": job["threads"], "mix_handles": job["mix"], "W": 64, "rounds": job["rounds"], "model": "dense 32 -> 6000 -> 6000 -> 64"}
+        ck.case(case, nontrivial=True, kind="threads")
+        if not res["done"] or not res["steps"]:
+            ck.disagree("concurrent calls killed the process", dict(case, stderr=res["stderr"][-200:]), signature={"what": "threads-crash"})
+        elif res["steps"][0]["wrong"]:
+            ck.disagree("concurrent calls return results that differ from the sequential ones", dict(case, wrong=res["steps"][0]["wrong"], first=res["steps"][0]["first"]),
+                        signature={"what": "threads-wrong", "same_handle": not job["mix"]})
 
 
 def run(ck: Check):
@@ -376,6 +382,8 @@ def run(ck: Check):
             ck.disagree("concurrent compile(save_lib_path=p) to one path failed although each compilation is valid",
                         dict(case, errors=st["errors"]), signature={"what": "concurrent-save", "kind": "error"})
     schedules_vs_impl(ck)
+    if getattr(ck, "_shared_storage", False) or ck.broken:
+        thread_stress_search(ck)
     return ck.finish()
 
 
